@@ -1,5 +1,5 @@
 (* C08 — stream parser's memory and I/O are bounded by the stream, not by header claims. *)
-Require Import V.Base.Prim V.Model.Structs V.Model.ElfBytes V.Model.Stream V.Proofs.StreamP V.Proofs.StreamQ.
+Require Import V.Base.Prim V.Model.Structs V.Model.File V.Model.Hash V.Model.ElfBytes V.Model.Stream V.Proofs.StreamP V.Proofs.StreamQ V.Proofs.StreamE.
 Open Scope N_scope.
 
 (* never a panic: any method, any state satisfying the invariant, any content, any schedule
@@ -33,6 +33,16 @@ Proof.
   - rewrite Hl. destruct (N.ltb_spec (blen (content w)) e) as [_|Hge]; [reflexivity|].
     exfalso. apply (N.lt_irrefl e). eapply N.le_lt_trans; eassumption.
 Qed.
+
+(* lazy open: the ranges open_stream asks the reader for are the 16 ident bytes, the header tail of
+   the ident's class, shdr[0] (under extended numbering only) and the two declared header tables
+   (entry size x count from their declared offsets) -- and every seek, allocation and read of a
+   fault-free run belongs to one of the ranges the program loads *)
+Theorem C08_open_loads : forall f fam, Forall (open_designated f fam) (loads f (open_prog fam)).
+Proof. exact open_loads. Qed.
+Theorem C08_io_from_loads : forall A f (p : prog A) L, valid_keys f L ->
+  Forall (ev_from (loads f p)) (fst (snd (run_pure f p L))).
+Proof. intros A f p. exact (trace_in_loads f p). Qed.
 
 Example C08_example :
   let w := {| content := of_list [x00; x01; x02; x03]; faults := fun _ => None |} in
